@@ -1579,6 +1579,10 @@ func reverse(parser *Parser, openKind lexer.TokenKind, parseFn parseFn, closeKin
 	closeStart := token.Start
 	for {
 		closeStart = parser.Token.Start
+		if zinteger && len(nodes) == 0 && peek(parser, closeKind) {
+			// report the empty list before the lexer looks at what follows the closing token
+			return nodes, unexpectedEmpty(parser, closeStart, openKind, closeKind)
+		}
 		if skp, err := skip(parser, closeKind); err != nil {
 			return nil, err
 		} else if skp {
